@@ -480,9 +480,8 @@ def check_ev(case, rec):
     a3 = pickle.loads(pickle.dumps(a))
     if a3 is not a or types.nutils_hash(a3) != ha:
         raise Violation('interning', 'pickle round trip of an evaluable gives a different object or hash', where='interning:evaluable-pickle')
-    ops = {n['op'] for n in case['p1']['nodes']}
-    if 'diagonalize' in ops and ops & {'inflate', 'take', 'concat', 'stack'}:
-        # excluded by construction: simplification of such programs may not terminate (open finding C01-inflate-diagonalize-nontermination);
+    if genexpr.known_loop(case['p1']):
+        # excluded by construction: simplification of such programs may not terminate (open C01 non-termination findings);
         # termination is not this property's subject, so the cached-simplification step is skipped and counted
         rec.label('simplify-skipped:upstream-C01')
     else:
